@@ -116,6 +116,9 @@ def big_shapes(run):
             run.case(["big-shape", pl, n], True, sample=case, classes=["big-shape"])
 
 
+from harness.common import translated_tie as common_translated_tie  # noqa: E402
+
+
 def run(tier, seed, replay=None):
     run = Run("C10", tier, seed, RULE)
     drv = Driver()
@@ -148,4 +151,5 @@ def run(tier, seed, replay=None):
     settle_model(run, drv)
     big_shapes(run)
     scaled_sweep(run, drv, tier)
+    common_translated_tie(run, ["next_power_2", "merkle_root"])
     return run.finish()
